@@ -138,7 +138,7 @@ def emul_full_expr(e, l, my_eip, env, machine):
                 raise ValueError('Emulation fails for "%s". ECX value is %s'
                     % (l, str(machine.pool[ecx])))
             if l.mnemo_mode == x86_afs.u16:
-                my_ecx.arg&=0xFFFF
+                my_ecx = ExprInt(my_ecx.arg&0xFFFF)
             if my_ecx.arg ==0:
                 break
 
@@ -165,7 +165,7 @@ def emul_full_expr(e, l, my_eip, env, machine):
         # serpillere included an emulation of TSC incrementation,
         # why here and nowhere else?
         if isinstance(machine.pool[tsc1], ExprInt):
-            machine.pool[tsc1].arg += tsc_inc
+            machine.pool[tsc1] = ExprInt(machine.pool[tsc1].arg + tsc_inc)
 
     return my_eip, mem_dst
 
